@@ -19,7 +19,7 @@ EXPLANATION = (
 TRUSTED = _c02.TRUSTED + ["corner lemma for + - * / over boxes (0 not in divisor); monotonicity of |x| on each side of 0"]
 ASSUMPTIONS = ["interval invariant lower <= upper (established by the constructors)", "endpoint kinds/bit lengths/relative exponents concrete per obligation; base exponent(s) symbolic in +-2^30",
                "products/quotients: small shapes with precise bit-vector multiplication"]
-BUDGET = {'quick': dict(ob_deadline_s=120, total_s=165), 'thorough': dict(ob_deadline_s=900, total_s=2400)}
+BUDGET = {'quick': dict(ob_deadline_s=150, total_s=170), 'thorough': dict(ob_deadline_s=900, total_s=2400)}
 BOUNDS = {'quick': 'endpoint mantissas 1..9 bits for + - abs neg (incl. infinite endpoints), 1..5 bits for * / square; prec 2..4; every sign pattern of the two intervals'}
 
 P = lambda bc, off: ['pos', bc, off]
@@ -71,6 +71,14 @@ def obligations(tier, seed=0):
     add('iv_muldiv', fn='mpi_mul', prec=3, s=S2[2], t=T2[2], entry='op')
     add('iv_muldiv', fn='mpi_div', prec=3, s=S2[0], t=T2[1], entry='op')
     add('iv_muldiv', fn='mpi_div', prec=3, s=S2[2], t=T2[2], entry='op')
+    # interval string forms: 'X +- Y', 'X (Y)', '[X, Y]', 'X' with the literal pieces denoting exact symbolic dyadic numbers
+    FSTR = 'checks.fam_str:mpi_from_str'
+    for xsign in (0, 1):
+        for off in (0, 3):
+            obs.append((FSTR, dict(form='pm', prec=2, xsign=xsign, off=off, _t=100)))
+        obs.append((FSTR, dict(form='paren', prec=2, xsign=xsign, off=1, _t=100)))
+        obs.append((FSTR, dict(form='plain', prec=3, xsign=xsign)))
+        obs.append((FSTR, dict(form='bracket', prec=3, xsign=xsign, xbits=20, ybits=30, off=-2)))
     if thorough:
         S3 = sign_patterns(7, 8, -2, 3)
         T3 = sign_patterns(6, 6, 1, 1)
@@ -79,4 +87,5 @@ def obligations(tier, seed=0):
                 add('iv_muldiv', fn='mpi_mul', prec=4, s=s, t=t)
                 add('iv_muldiv', fn='mpi_div', prec=4, s=s, t=t)
                 add('iv_addsub', fn='mpi_add', prec=24, s=[[k[0], 30, k[2]] if len(k) > 1 else k for k in s], t=[[k[0], 40, k[2]] if len(k) > 1 else k for k in t])
+    obs.sort(key=lambda o: 0 if o[0].endswith('mpi_from_str') else 1)
     return obs
